@@ -190,7 +190,13 @@ def impl(c):
             return [(p.time, float(p.label)) for p in pts]
         return call(run)
     if op == "load":
+        # the path has a past: another listing stood there and was loaded with the same arguments; a listing regenerated
+        # at its old path (what extractPitch(forceRegenerate=True) does) must be read as it now stands
+        # (round 3, C20-v1: a per-path cache of parsed listings).  Self-contained, so a replay shows it.
         fn = os.path.join(tmpdir(), f"listing{next(_counter)}.txt")
+        with io.open(fn, "w", encoding="utf-8", newline="") as fd:
+            fd.write("time,f0,intensity\n0.25,111.5,61.25\n0.5,112.5,62.25\n")
+        call(lambda: PI.loadTimeSeriesData(fn, c["undef"]))
         with io.open(fn, "w", encoding="utf-8", newline="") as fd:
             fd.write(listing_text(c))
         try:
